@@ -84,7 +84,43 @@ thread_local! {
     pub static OUT_LEN: std::cell::Cell<(Option<usize>, bool)> = const { std::cell::Cell::new((None, false)) };
 }
 
-fn sentinel_buf(sentinel: &[u8], n: usize) -> Vec<u8> {
+/// a caller-owned output buffer: `n` sentinel bytes placed at a varying offset (0..=7, cycling per call) inside a larger
+/// allocation, so that the slot handed to the library starts at every alignment mod 8 (word-wise clearing or copying
+/// code that handles the unaligned head separately is exercised)
+pub struct Buf {
+    v: Vec<u8>,
+    off: usize,
+    n: usize,
+}
+impl Buf {
+    pub fn slot(&mut self) -> &mut [u8] {
+        &mut self.v[self.off..self.off + self.n]
+    }
+    pub fn get(&self) -> Vec<u8> {
+        self.v[self.off..self.off + self.n].to_vec()
+    }
+    pub fn len(&self) -> usize {
+        self.n
+    }
+}
+thread_local! {
+    static ALIGN_CTR: std::cell::Cell<usize> = const { std::cell::Cell::new(0) };
+}
+/// the same for in-place forms: a copy of `bytes` at a varying alignment
+pub fn copy_buf(bytes: &[u8]) -> Buf {
+    let k = ALIGN_CTR.with(|c| {
+        let k = c.get();
+        c.set(k + 1);
+        k
+    });
+    let n = bytes.len();
+    let mut v = vec![0xC3u8; n + 16];
+    let base = v.as_ptr() as usize;
+    let off = (8 - base % 8) % 8 + k % 8;
+    v[off..off + n].copy_from_slice(bytes);
+    Buf { v, off, n }
+}
+pub fn sentinel_buf(sentinel: &[u8], n: usize) -> Buf {
     let n = OUT_LEN.with(|c| match c.get() {
         (Some(o), _) => {
             c.set((Some(o), true));
@@ -92,7 +128,19 @@ fn sentinel_buf(sentinel: &[u8], n: usize) -> Vec<u8> {
         }
         _ => n,
     });
-    (0..n).map(|i| sentinel[i % sentinel.len()]).collect()
+    let k = ALIGN_CTR.with(|c| {
+        let k = c.get();
+        c.set(k + 1);
+        k
+    });
+    // Vec<u8> from the system allocator is at least 8-aligned; offset relative to that
+    let mut v = vec![0xC3u8; n + 16];
+    let base = v.as_ptr() as usize;
+    let off = (8 - base % 8) % 8 + k % 8;
+    for i in 0..n {
+        v[off + i] = sentinel[i % sentinel.len()];
+    }
+    Buf { v, off, n }
 }
 
 fn split16(ct: &[u8]) -> Option<([u8; 16], &[u8])> {
@@ -106,25 +154,25 @@ fn split16(ct: &[u8]) -> Option<([u8; 16], &[u8])> {
 
 fn sb_open_easy(w: &Wire, s: &[u8]) -> Option<OpenOut> {
     let mut m = sentinel_buf(s, w.ct.len().saturating_sub(16));
-    let pre = m.clone();
-    let r = crypto_secretbox_open_easy(&mut m, &w.ct, &w.nonce, &w.key);
+    let pre = m.get();
+    let r = crypto_secretbox_open_easy(m.slot(), &w.ct, &w.nonce, &w.key);
     let n = m.len();
-    out(r, m, pre, true, n)
+    out(r, m.get(), pre, true, n)
 }
 fn sb_open_detached(w: &Wire, s: &[u8]) -> Option<OpenOut> {
     let (mac, body) = split16(&w.ct)?;
     let mut m = sentinel_buf(s, body.len());
-    let pre = m.clone();
-    let r = crypto_secretbox_open_detached(&mut m, &mac, body, &w.nonce, &w.key);
+    let pre = m.get();
+    let r = crypto_secretbox_open_detached(m.slot(), &mac, body, &w.nonce, &w.key);
     let n = m.len();
-    out(r, m, pre, true, n)
+    out(r, m.get(), pre, true, n)
 }
 fn sb_open_easy_inplace(w: &Wire, _s: &[u8]) -> Option<OpenOut> {
-    let mut b = w.ct.clone();
-    let pre = b.clone();
-    let r = crypto_secretbox_open_easy_inplace(&mut b, &w.nonce, &w.key);
+    let mut b = copy_buf(&w.ct);
+    let pre = b.get();
+    let r = crypto_secretbox_open_easy_inplace(b.slot(), &w.nonce, &w.key);
     let n = b.len().saturating_sub(16);
-    out(r, b, pre, true, n)
+    out(r, b.get(), pre, true, n)
 }
 fn sb_obj_stack_vec(w: &Wire, _s: &[u8]) -> Option<OpenOut> {
     let b: DryocSecretBox<StackByteArray<16>, Vec<u8>> = match DryocSecretBox::from_bytes(&w.ct) {
@@ -174,33 +222,33 @@ fn sb_obj_locked(w: &Wire, _s: &[u8]) -> Option<OpenOut> {
 
 fn bx_open_easy(w: &Wire, s: &[u8]) -> Option<OpenOut> {
     let mut m = sentinel_buf(s, w.ct.len().saturating_sub(16));
-    let pre = m.clone();
-    let r = crypto_box_open_easy(&mut m, &w.ct, &w.nonce, &w.pk, &w.sk);
+    let pre = m.get();
+    let r = crypto_box_open_easy(m.slot(), &w.ct, &w.nonce, &w.pk, &w.sk);
     let n = m.len();
-    out(r, m, pre, true, n)
+    out(r, m.get(), pre, true, n)
 }
 fn bx_open_detached(w: &Wire, s: &[u8]) -> Option<OpenOut> {
     let (mac, body) = split16(&w.ct)?;
     let mut m = sentinel_buf(s, body.len());
-    let pre = m.clone();
-    let r = crypto_box_open_detached(&mut m, &mac, body, &w.nonce, &w.pk, &w.sk);
+    let pre = m.get();
+    let r = crypto_box_open_detached(m.slot(), &mac, body, &w.nonce, &w.pk, &w.sk);
     let n = m.len();
-    out(r, m, pre, true, n)
+    out(r, m.get(), pre, true, n)
 }
 fn bx_open_detached_inplace(w: &Wire, _s: &[u8]) -> Option<OpenOut> {
     let (mac, body) = split16(&w.ct)?;
-    let mut b = body.to_vec();
-    let pre = b.clone();
-    let r = crypto_box_open_detached_inplace(&mut b, &mac, &w.nonce, &w.pk, &w.sk);
+    let mut b = copy_buf(body);
+    let pre = b.get();
+    let r = crypto_box_open_detached_inplace(b.slot(), &mac, &w.nonce, &w.pk, &w.sk);
     let n = b.len();
-    out(r, b, pre, true, n)
+    out(r, b.get(), pre, true, n)
 }
 fn bx_open_easy_inplace(w: &Wire, _s: &[u8]) -> Option<OpenOut> {
-    let mut b = w.ct.clone();
-    let pre = b.clone();
-    let r = crypto_box_open_easy_inplace(&mut b, &w.nonce, &w.pk, &w.sk);
+    let mut b = copy_buf(&w.ct);
+    let pre = b.get();
+    let r = crypto_box_open_easy_inplace(b.slot(), &w.nonce, &w.pk, &w.sk);
     let n = b.len().saturating_sub(16);
-    out(r, b, pre, true, n)
+    out(r, b.get(), pre, true, n)
 }
 fn bx_obj_vecbox(w: &Wire, _s: &[u8]) -> Option<OpenOut> {
     let b = match dryoc::dryocbox::VecBox::from_bytes(&w.ct) {
@@ -229,18 +277,18 @@ fn bx_obj_locked(w: &Wire, _s: &[u8]) -> Option<OpenOut> {
 fn an_open_detached(w: &Wire, s: &[u8]) -> Option<OpenOut> {
     let (mac, body) = split16(&w.ct)?;
     let mut m = sentinel_buf(s, body.len());
-    let pre = m.clone();
-    let r = crypto_box_open_detached_afternm(&mut m, &mac, body, &w.nonce, &w.key);
+    let pre = m.get();
+    let r = crypto_box_open_detached_afternm(m.slot(), &mac, body, &w.nonce, &w.key);
     let n = m.len();
-    out(r, m, pre, true, n)
+    out(r, m.get(), pre, true, n)
 }
 fn an_open_detached_inplace(w: &Wire, _s: &[u8]) -> Option<OpenOut> {
     let (mac, body) = split16(&w.ct)?;
-    let mut b = body.to_vec();
-    let pre = b.clone();
-    let r = crypto_box_open_detached_afternm_inplace(&mut b, &mac, &w.nonce, &w.key);
+    let mut b = copy_buf(body);
+    let pre = b.get();
+    let r = crypto_box_open_detached_afternm_inplace(b.slot(), &mac, &w.nonce, &w.key);
     let n = b.len();
-    out(r, b, pre, true, n)
+    out(r, b.get(), pre, true, n)
 }
 // ---- trial decryption: the same buffer is first offered to the in-place form with another key (rejected), then with the
 // ---- right one; libsodium leaves a rejected buffer untouched, so the second attempt must behave like a first one
@@ -250,46 +298,46 @@ fn other(k: &[u8; 32]) -> [u8; 32] {
     o
 }
 fn sb_open_easy_inplace_retry(w: &Wire, _s: &[u8]) -> Option<OpenOut> {
-    let mut b = w.ct.clone();
-    let pre = b.clone();
-    if crypto_secretbox_open_easy_inplace(&mut b, &w.nonce, &other(&w.key)).is_ok() {
+    let mut b = copy_buf(&w.ct);
+    let pre = b.get();
+    if crypto_secretbox_open_easy_inplace(b.slot(), &w.nonce, &other(&w.key)).is_ok() {
         return None; // the other key also authenticates (harness-level coincidence / the key is what was tampered)
     }
-    let r = crypto_secretbox_open_easy_inplace(&mut b, &w.nonce, &w.key);
+    let r = crypto_secretbox_open_easy_inplace(b.slot(), &w.nonce, &w.key);
     let n = b.len().saturating_sub(16);
-    out(r, b, pre, true, n)
+    out(r, b.get(), pre, true, n)
 }
 fn bx_open_easy_inplace_retry(w: &Wire, _s: &[u8]) -> Option<OpenOut> {
-    let mut b = w.ct.clone();
-    let pre = b.clone();
-    if crypto_box_open_easy_inplace(&mut b, &w.nonce, &w.pk, &other(&w.sk)).is_ok() {
+    let mut b = copy_buf(&w.ct);
+    let pre = b.get();
+    if crypto_box_open_easy_inplace(b.slot(), &w.nonce, &w.pk, &other(&w.sk)).is_ok() {
         return None;
     }
-    let r = crypto_box_open_easy_inplace(&mut b, &w.nonce, &w.pk, &w.sk);
+    let r = crypto_box_open_easy_inplace(b.slot(), &w.nonce, &w.pk, &w.sk);
     let n = b.len().saturating_sub(16);
-    out(r, b, pre, true, n)
+    out(r, b.get(), pre, true, n)
 }
 fn bx_open_detached_inplace_retry(w: &Wire, _s: &[u8]) -> Option<OpenOut> {
     let (mac, body) = split16(&w.ct)?;
-    let mut b = body.to_vec();
-    let pre = b.clone();
-    if crypto_box_open_detached_inplace(&mut b, &mac, &w.nonce, &w.pk, &other(&w.sk)).is_ok() {
+    let mut b = copy_buf(body);
+    let pre = b.get();
+    if crypto_box_open_detached_inplace(b.slot(), &mac, &w.nonce, &w.pk, &other(&w.sk)).is_ok() {
         return None;
     }
-    let r = crypto_box_open_detached_inplace(&mut b, &mac, &w.nonce, &w.pk, &w.sk);
+    let r = crypto_box_open_detached_inplace(b.slot(), &mac, &w.nonce, &w.pk, &w.sk);
     let n = b.len();
-    out(r, b, pre, true, n)
+    out(r, b.get(), pre, true, n)
 }
 fn an_open_detached_inplace_retry(w: &Wire, _s: &[u8]) -> Option<OpenOut> {
     let (mac, body) = split16(&w.ct)?;
-    let mut b = body.to_vec();
-    let pre = b.clone();
-    if crypto_box_open_detached_afternm_inplace(&mut b, &mac, &w.nonce, &other(&w.key)).is_ok() {
+    let mut b = copy_buf(body);
+    let pre = b.get();
+    if crypto_box_open_detached_afternm_inplace(b.slot(), &mac, &w.nonce, &other(&w.key)).is_ok() {
         return None;
     }
-    let r = crypto_box_open_detached_afternm_inplace(&mut b, &mac, &w.nonce, &w.key);
+    let r = crypto_box_open_detached_afternm_inplace(b.slot(), &mac, &w.nonce, &w.key);
     let n = b.len();
-    out(r, b, pre, true, n)
+    out(r, b.get(), pre, true, n)
 }
 fn an_obj_precalc(w: &Wire, _s: &[u8]) -> Option<OpenOut> {
     let b = match dryoc::dryocbox::VecBox::from_bytes(&w.ct) {
@@ -329,10 +377,10 @@ fn bx_obj_precalc_lockedro_derived(w: &Wire, _s: &[u8]) -> Option<OpenOut> {
 
 fn sl_open(w: &Wire, s: &[u8]) -> Option<OpenOut> {
     let mut m = sentinel_buf(s, w.ct.len().saturating_sub(48));
-    let pre = m.clone();
-    let r = crypto_box_seal_open(&mut m, &w.ct, &w.pk, &w.sk);
+    let pre = m.get();
+    let r = crypto_box_seal_open(m.slot(), &w.ct, &w.pk, &w.sk);
     let n = m.len();
-    out(r, m, pre, true, n)
+    out(r, m.get(), pre, true, n)
 }
 fn sl_obj_unseal(w: &Wire, _s: &[u8]) -> Option<OpenOut> {
     let b = match dryoc::dryocbox::VecBox::from_sealed_bytes(&w.ct) {
